@@ -169,7 +169,7 @@ class CheckC10(core.Check):
         parsed = parse_name_simple(name)
         keys = sessions.Keys(parsed, seed)
         rnd = random.Random(seed)
-        res = res or (rnd.choice(["D", "R", "DR"]), rnd.choice(["D", "R", "DR"]))
+        res = res or getattr(self, "_force_res", None) or (rnd.choice(["D", "R", "DR"]), rnd.choice(["D", "R", "DR"]))
         sessions.add_pair(c, parsed, keys, res=res, rng=("script:%d" % seed, "script:%d" % (seed + 1)), rec=("-", "-"))
         sessions.add_handshake(c, parsed, ["gen:5:p%d" % j for j in range(parsed.nmsgs)], upto=k, flags=("q",))
         return parsed, rnd
@@ -185,7 +185,7 @@ class CheckC10(core.Check):
         bounds = set([0, off + pl + 16])
         for f in fields:
             bounds |= {f.off, f.off + publen, f.off + f.len}
-        lens = set(range(0, 201))
+        lens = set(range(0, 201)) if not getattr(self, "_tiny", False) else set()
         for b in bounds:
             lens |= {max(0, b - 1), b, b + 1, b + 15, b + 16, b + 17}
         # out-of-turn writer first (always fails), then the real writer with ascending buffers
@@ -220,10 +220,10 @@ class CheckC10(core.Check):
         for t in cuts:
             if t < total:
                 c.op("hs_read", r, msg="$g~trunc:%d" % t, buf=rnd.choice([0, 16, 1000]))
-        for L in [0, 1, 15, 16, 17, 31, 32, 33, 47, 48, 49, 64, 65, 66, 80, 81, 82, 96, 97, 113, 129, 200]:
+        for L in ([0, 1, 15, 16, 17, 31, 32, 33, 47, 48, 49, 64, 65, 66, 80, 81, 82, 96, 97, 113, 129, 200] if not getattr(self, "_tiny", False) else [0, 31, 32, 48, 49]):
             c.op("hs_read", r, msg="zero:%d" % L, buf=1000)
             c.op("hs_read", r, msg="gen:%d:g%d" % (L, L), buf=rnd.choice([0, 1000]))
-        for L in BIG_LENS:
+        for L in (BIG_LENS if not getattr(self, "_tiny", False) else [65535, 65536]):
             c.op("hs_read", r, msg="gen:%d:G" % L, buf=70000)
             c.op("hs_read", r, msg="$g~ext:zero:%d" % (L - total), buf=70000)
         for bit in rnd.sample(range(total * 8), min(16, total * 8)) if total else []:
@@ -284,7 +284,7 @@ class CheckC10(core.Check):
         wop, rop = ("st_write", "st_read") if stateless else ("t_write", "t_read")
         nonces = [0, 1, 2**32, 2**63, 2**64 - 2, 2**64 - 1]
         for p, q in (("A", "B"), ("B", "A")):
-            for L in list(range(0, 40)) + [100, 200]:
+            for L in (list(range(0, 40)) + [100, 200] if not getattr(self, "_tiny", False) else [0, 15, 16, 17, 33]):
                 for pl in (0, 1, 17):
                     kw = {"n": rnd.choice(nonces)} if stateless else {}
                     c.op(wop, p, pay="gen:%d:t" % pl, buf=L, **kw)
@@ -293,14 +293,14 @@ class CheckC10(core.Check):
                 c.op(wop, p, pay="gen:%d:t" % pl, buf=L, **kw)
             kw = {"n": 3} if stateless else {}
             c.op(wop, p, pay="gen:20:t", buf=100, out="g" + p, **kw)
-            for L in list(range(0, 40)) + [64, 100, 200] + BIG_LENS:
+            for L in (list(range(0, 40)) + [64, 100, 200] + BIG_LENS if not getattr(self, "_tiny", False) else [0, 15, 16, 17, 65536]):
                 kw = {"n": rnd.choice(nonces)} if stateless else {}
                 c.op(rop, q, msg="gen:%d:x" % L, buf=rnd.choice([0, 1, L, 70000]), **kw)
                 c.op(rop, q, msg="zero:%d" % L, buf=70000, **kw)
-            for t in range(0, 37):
+            for t in (range(0, 37) if not getattr(self, "_tiny", False) else (0, 15, 16, 35)):
                 kw = {"n": 3} if stateless else {}
                 c.op(rop, q, msg="$g%s~trunc:%d" % (p, t), buf=rnd.choice([0, 4, 20, 100]), **kw)
-            for b in range(0, 22):
+            for b in (range(0, 22) if not getattr(self, "_tiny", False) else (0, 19, 20)):
                 kw = {"n": 3} if stateless else {}
                 c.op(rop, q, msg="$g" + p, buf=b, **kw)
             if not stateless:
@@ -315,6 +315,63 @@ class CheckC10(core.Check):
             c.op("rekey_manual", q, i="-", r=gen_bytes("rk", 32), flags=("sep",))
         c.info = {"cls": "tr%d" % stateless, "variant": name.split("_")[1], "dh": parsed.dh}
         return c
+
+    # ------------------------------------------------------------ sanitizer workloads (thorough)
+
+    def san_cases(self, tool):
+        rnd = random.Random(self.seed * 13 + len(tool))
+        cases = []
+        if tool in ("asan", "valgrind"):
+            n = 260 if tool == "asan" else 64
+            names = [make_name(p, ps, dh, ci, ha) for (p, ps), dh, ci, ha in zip(
+                [rnd.choice([("XX", ()), ("IK", ()), ("X1X1", ()), ("N", (0,)), ("XX", (0, 3)), ("KK", (2,)), ("NX1", ()), ("K", ())]) for _ in range(n)],
+                [rnd.choice(DHS) for _ in range(n)], [rnd.choice(CIPHERS) for _ in range(n)], [rnd.choice(HASHES) for _ in range(n)])]
+            for i, name in enumerate(names):
+                parsed = parse_name_simple(name)
+                kind = ["hsw", "hsr", "tr", "misc"][i % 4]
+                k = rnd.randrange(parsed.nmsgs) if kind != "tr" else rnd.randrange(2)
+                cases.append(self.build((kind, name, k, rnd.getrandbits(24))))
+            cases.append(self.build(("parse", rnd.getrandbits(32))))
+            for dh in DHS:
+                cases.append(self.build(("build", "XX", dh, "i", "s", 1)))
+                cases.append(self.build(("build", "KK", dh, "r", "rs", 2)))
+        else:  # miri: tiny scripts on the pure-Rust back end
+            self._force_res = ("D", "D")
+            self._tiny = True
+            try:
+                for i in range(16):
+                    name = make_name(["NN", "XX", "NK", "X"][i % 4], (), "25519", CIPHERS[i % 3], HASHES[i % 4])
+                    parsed = parse_name_simple(name)
+                    kind = ["hsw", "hsr", "tr"][i % 3]
+                    k = rnd.randrange(parsed.nmsgs) if kind != "tr" else i % 2
+                    cases.append(self.build((kind, name, k, rnd.getrandbits(24))))
+            finally:
+                self._force_res = None
+                self._tiny = False
+        return cases
+
+    def extra_runs(self, binary):
+        import collections
+
+        stats = collections.Counter()
+        viols = []
+        notes = {}
+        if self.tier != "thorough" and not os.environ.get("VERIF_SAN"):
+            notes["sanitizers"] = "not run in quick tier (thorough runs AddressSanitizer, valgrind memcheck and Miri)"
+            return stats, viols, notes
+        from .. import sanit
+
+        for tool in ("asan", "valgrind", "miri"):
+            try:
+                res = sanit.run_tool(self, tool)
+            except core.Inconclusive as e:
+                notes[tool] = "inconclusive: %s" % str(e)[:500]
+                stats[tool + "_inconclusive"] += 1
+                continue
+            notes[tool] = res["note"]
+            stats.update(res["stats"])
+            viols.extend(res["violations"])
+        return stats, viols, notes
 
     # ------------------------------------------------------------ judge
 
